@@ -13,6 +13,10 @@ thread_local! {
     static RANGES: Cell<[(usize, usize); SLOTS]> = const { Cell::new([(0, 0); SLOTS]) };
     static N: Cell<usize> = const { Cell::new(0) };
     static HIT: Cell<(usize, usize)> = const { Cell::new((0, 0)) };
+    /// ranges of posted buffers that were freed (so that an in-place device access can be refused
+    /// instead of corrupting the harness' own heap)
+    static FREED: Cell<[(usize, usize); 16]> = const { Cell::new([(0, 0); 16]) };
+    static NFREED: Cell<usize> = const { Cell::new(0) };
     static ENABLED: Cell<bool> = const { Cell::new(false) };
 }
 
@@ -48,6 +52,15 @@ unsafe impl GlobalAlloc for WatchAlloc {
                                         h.set((a, l.size()))
                                     }
                                 });
+                                let k = NFREED.with(|c| c.get());
+                                if k < 16 {
+                                    FREED.with(|f| {
+                                        let mut t = f.get();
+                                        t[k] = (s, e2);
+                                        f.set(t);
+                                    });
+                                    NFREED.with(|c| c.set(k + 1));
+                                }
                             }
                         }
                     });
@@ -79,7 +92,17 @@ pub fn sync(w: &mut World) {
     ENABLED.with(|e| e.set(true));
 }
 
+/// Was (part of) this host range freed while it was posted to the device?
+pub fn freed_while_posted(ptr: usize, len: usize) -> bool {
+    let k = NFREED.with(|c| c.get());
+    if k == 0 {
+        return false;
+    }
+    FREED.with(|f| f.get().iter().take(k).any(|(s, e)| *s < ptr + len && ptr < *e))
+}
+
 pub fn disable() {
+    let _ = NFREED.try_with(|c| c.set(0));
     let _ = ENABLED.try_with(|e| e.set(false));
     let _ = N.try_with(|c| c.set(0));
     let _ = HIT.try_with(|h| h.set((0, 0)));
